@@ -35,9 +35,11 @@ module Nat :
 
 val hd : 'a1 -> 'a1 list -> 'a1
 
+val nth : nat -> 'a1 list -> 'a1 -> 'a1
+
 val nth_error : 'a1 list -> nat -> 'a1 option
 
-val rev : 'a1 list -> 'a1 list
+val rev_append : 'a1 list -> 'a1 list -> 'a1 list
 
 val concat : 'a1 list list -> 'a1 list
 
@@ -191,6 +193,8 @@ module Z :
 
 type str = n list
 
+val frev : 'a1 list -> 'a1 list
+
 val str_eqb : str -> str -> bool
 
 val str_leb : str -> str -> bool
@@ -261,6 +265,10 @@ val slice_range : 'a1 list -> z -> z -> 'a1 list outcome
 
 val apply_range : 'a1 list -> range -> 'a1 list outcome
 
+val resolve_index_m : z -> z -> z
+
+val apply_range_m : 'a1 list -> range -> 'a1 list
+
 val norm : z -> z -> z
 
 val range_start : z option -> z -> z
@@ -322,6 +330,10 @@ type op =
 type value =
 | VStr of str
 | VList of str list
+
+type kind =
+| KStr
+| KList
 
 val insert_sorted : str -> str list -> str list
 
@@ -388,6 +400,14 @@ val debug_value_take : n
 
 val debug_value_by_chars : bool
 
+val debug_ws_limit : n
+
+val debug_literal_limit : n
+
+val debug_literal_take : n
+
+val debug_literal_by_chars : bool
+
 val raw_split : str -> str -> str list
 
 val get_cached_split : str -> str -> str list prog
@@ -442,6 +462,85 @@ val spec_steps : env -> op list -> value -> str -> str outcome
 
 val spec_run : env -> op list -> str -> str outcome
 
+val sep_after : op -> str -> str
+
+val last_sep_from : str -> op list -> str
+
+val last_sep : op list -> str
+
+val kind_step : kind -> op -> kind option
+
+val infer_from : kind -> op list -> kind option
+
+val infer : op list -> kind option
+
+val well_typed_op : op -> bool
+
+val well_typed_from : kind -> op list -> bool
+
+val well_typed : op list -> bool
+
+type section =
+| Lit of str
+| Sec of op list
+
+type template = { t_raw : str; t_sections : section list; t_debug : bool }
+
+val optz_eqb : z option -> z option -> bool
+
+val range_eqb : range -> range -> bool
+
+val tdir_eqb : tdir -> tdir -> bool
+
+val sdir_eqb : sdir -> sdir -> bool
+
+val pdir_eqb : pdir -> pdir -> bool
+
+val optn_eqb : n option -> n option -> bool
+
+val op_eqb : op -> op -> bool
+
+val ops_eqb : op list -> op list -> bool
+
+type memo = ((str * op list) * str) list
+
+val memo_lookup : memo -> str -> op list -> str option
+
+val fast_single_split : str -> str -> range -> str prog
+
+val apply_section :
+  env -> bool -> str -> op list -> memo -> (str outcome * memo) prog
+
+val literal_preview : str -> unit outcome
+
+val format_loop_plain :
+  env -> bool -> str -> section list -> str -> memo -> str outcome prog
+
+val format_loop_debug :
+  env -> str -> section list -> str -> memo -> str outcome prog
+
+val impl_format : env -> template -> str -> str outcome prog
+
+val fwi_inputs :
+  env -> bool -> op list -> str list -> memo -> (str list outcome * memo) prog
+
+val fwi_loop :
+  env -> bool -> section list -> str list list -> str list -> nat -> str ->
+  memo -> str outcome prog
+
+val impl_format_with_inputs :
+  env -> template -> str list list -> str list -> str outcome prog
+
+val seg_out : env -> str -> section -> str outcome
+
+val spec_format : env -> section list -> str -> str outcome
+
+val spec_fwi :
+  env -> section list -> str list list -> str list -> nat -> str list outcome
+
+val spec_format_with_inputs :
+  env -> section list -> str list list -> str list -> str outcome
+
 val x_run_pure_impl : env -> bool -> op list -> str -> str outcome
 
 val x_run_st_impl :
@@ -452,3 +551,18 @@ val x_spec_run : env -> op list -> str -> str outcome
 val x_apply_range_str : str list -> range -> str list outcome
 
 val x_select_str : range -> str list -> str list
+
+val x_infer : op list -> kind option
+
+val x_well_typed : op list -> bool
+
+val x_last_sep : op list -> str
+
+val x_format_pure : env -> template -> str -> str outcome
+
+val x_spec_format : env -> section list -> str -> str outcome
+
+val x_fwi_pure : env -> template -> str list list -> str list -> str outcome
+
+val x_spec_fwi :
+  env -> section list -> str list list -> str list -> str outcome
